@@ -9,6 +9,7 @@
 #include <unistd.h>
 #include <fcntl.h>
 #include <sys/mman.h>
+#include <sys/time.h>
 
 static uint8_t* g_cur = nullptr;            // shared mapping: [u32 len][bytes] of the case being executed
 static const size_t CUR_MAX = 1 << 20;
@@ -33,6 +34,20 @@ static void on_alarm(int) {
     static const char m[] = "VERIF-HANG: case exceeded the watchdog\n";
     (void)!write(2, m, sizeof m - 1);
     _exit(97);
+}
+// Watchdog: CPU time of this process (immune to machine load), plus a 20x wall-clock fallback for hangs that block
+// without consuming CPU (deadlocks).  A hang is only ever a candidate: the driver replays it three times.
+static void arm_watchdog() {
+    if (g_watchdog <= 0) return;
+    struct itimerval it; memset(&it, 0, sizeof it);
+    it.it_value.tv_sec = g_watchdog;
+    setitimer(ITIMER_PROF, &it, nullptr);
+    alarm((unsigned)g_watchdog * 20);
+}
+static void disarm_watchdog() {
+    struct itimerval it; memset(&it, 0, sizeof it);
+    setitimer(ITIMER_PROF, &it, nullptr);
+    alarm(0);
 }
 static void write_file(const char* path, const uint8_t* d, size_t n) {
     FILE* f = fopen(path, "wb");
@@ -74,11 +89,12 @@ int main(int argc, char** argv) {
         return r;
     }
     signal(SIGALRM, on_alarm);
+    signal(SIGPROF, on_alarm);
     if (replay) {
         std::vector<uint8_t> v = read_file(replay);
-        if (g_watchdog > 0) alarm((unsigned)g_watchdog);
+        arm_watchdog();
         int r = verif_case(v.data(), v.size());
-        alarm(0);
+        disarm_watchdog();
         if (r) { fprintf(stderr, "VERIF-FAIL sig=%s msg=%s\n", verif::g_fail_sig.c_str(), verif::g_fail_msg.c_str()); return 1; }
         fprintf(stderr, "held\n");
         return 0;
@@ -91,7 +107,7 @@ int main(int argc, char** argv) {
             uint32_t len; memcpy(&len, &all[off], 4); off += 4;
             if (off + len > all.size()) break;
             cur_write(&all[off], len);
-            if (g_watchdog > 0 && (idx & 63) == 0) alarm((unsigned)g_watchdog);
+            if ((idx & 63) == 0) arm_watchdog();
             if (verif_case(&all[off], len)) {
                 write_file(failp, &all[off], len);
                 fprintf(stderr, "VERIF-FAIL sig=%s msg=%s\n", verif::g_fail_sig.c_str(), verif::g_fail_msg.c_str());
@@ -100,7 +116,7 @@ int main(int argc, char** argv) {
             }
             off += len; idx++;
         }
-        alarm(0);
+        disarm_watchdog();
         verif::flush_stats(stats);
         return 0;
     }
@@ -108,7 +124,7 @@ int main(int argc, char** argv) {
         std::vector<uint8_t> last_fail; bool failed = false; std::string sig, msg; uint64_t n = 0;
         bool ok = rc::check(verif_property(), [&](const std::vector<uint8_t>& v) {
             cur_write(v.data(), v.size());
-            if (g_watchdog > 0 && (n++ & 63) == 0) alarm((unsigned)g_watchdog);
+            if ((n++ & 63) == 0) arm_watchdog();
             int r = verif_case(v.data(), v.size());
             if (r) {
                 failed = true; verif::g_counting = false;
@@ -116,7 +132,7 @@ int main(int argc, char** argv) {
             }
             RC_ASSERT(r == 0);
         });
-        alarm(0);
+        disarm_watchdog();
         verif::flush_stats(stats);
         if (!ok || failed) {
             write_file(failp, last_fail.data(), last_fail.size());
